@@ -21,7 +21,7 @@ EXTRA = {
     "explanation": "bundle_refines_spec / unique_spec / getitem_int_spec (Props/C20.lean) hold for every block list.",
 }
 
-NAMES = ["a", "b", "tab", "é_1", "x*", "T", "t", "name", "df", "_x"]
+NAMES = ["a", "b", "tab", "é_1", "x*", "T", "t", "name", "df", "_x", "cafe\u0301", "caf\u00e9"]
 
 
 def _pool():
@@ -134,7 +134,7 @@ def run(tier, seed, model_ok, translator, search=False):
 
         # queries
         qs = [{"q": "len"}, {"q": "iter"}]
-        for nm in NAMES[:5] + ["absent"]:
+        for nm in NAMES[:5] + NAMES[-2:] + ["absent"]:
             for q in ("all", "contains", "unique", "getattr", "getitem_str"):
                 qs.append({"q": q, "n": nm})
         ntab = sum(1 for a in abstract if a["t"])
